@@ -14,6 +14,7 @@ STR_PATTERNS = [
     "?^fo", "?o+", "?.*oo", "?fo.*", "?.*o.*", "?^ab$", "?b", "?(a|b)c",
     "'*x*'", '"foo"', "'a'", "''",
     "iFOO", "ifoo", "i*OO", "iFo*", "i*O*", "i?^FO", "iAB", "i*B*", "i",
+    "i?O+", "i?^AB", "i?Bc", "i?OO$", "?^A", "?O",
     "if", "in", "i*", "1", "5", "true", "x.y", "a b",
 ]
 NUM_PATTERNS = [">=5", ">5", "<5", "<=5", "=5", ">4.5", "<=5.5", "=5.0", ">-3", "<100", ">=0"]
@@ -41,7 +42,16 @@ def gen_list(rng, depth, allow_nested=True):
     n = pick(rng, [1, 2, 2, 3, 3, 4])
     mode = rng.random()
     out = []
-    if mode < 0.55:
+    if mode < 0.2:
+        fam = pick(rng, FAMILIES)
+        for _ in range(max(n, 2)):
+            out.append(pick(rng, fam))
+    elif mode < 0.3:
+        # two families mixed: several batches side by side
+        f1, f2 = pick(rng, FAMILIES), pick(rng, FAMILIES)
+        for _ in range(max(n, 3)):
+            out.append(pick(rng, f1 if rng.random() < 0.5 else f2))
+    elif mode < 0.55:
         for _ in range(n):
             out.append(pick(rng, STR_PATTERNS))
     elif mode < 0.7:
@@ -224,8 +234,16 @@ def needle_text(p):
     return q
 
 
+FAMILIES = [
+    ["i?^FO", "i?O+", "i?^AB", "i?Bc", "i?OO$"],          # case-insensitive regexes (one regex set)
+    ["?^fo", "?o+", "?.*oo", "?fo.*", "?b", "?(a|b)c"],     # regexes
+    ["i*OO", "iFo*", "i*O*", "iAB", "i*B*", "iFOO"],        # case-insensitive needles (one automaton)
+    ["fo*", "*oo", "*o*", "*ab*", "a*", "*c", "foo", "abc"],  # needles (one automaton)
+]
+
+
 REGEX_EXAMPLES = {"^fo": "foo", "o+": "foo", ".*oo": "xoo", "fo.*": "xfoo", ".*o.*": "o", "^ab$": "ab", "b": "abc",
-                  "(a|b)c": "xbc", "^FO": "fox"}
+                  "(a|b)c": "xbc", "^FO": "fox", "O+": "xoy", "^AB": "abx", "Bc": "xbC", "OO$": "fOo", "^A": "Ab", "O": "xO"}
 
 
 def match_for(rng, p):
